@@ -223,7 +223,7 @@ theorem applyReq_path {a : Adapter} {ra ra' : RA} (h : applyReq a ra = .ok ra') 
   | trace t =>
     simp only [applyReq] at h
     split at h <;> first | (cases h; rfl) | cases h
-  | unwrap _ | count | compact | nullify | addParam _ _ | wrapData _ => cases h; rfl
+  | unwrap _ | count | compact | nullify | addParam _ _ | wrapData _ | nested _ _ _ _ => cases h; rfl
   | boom b => cases b <;> cases h; rfl
 
 theorem applyAll_path {as : List Adapter} {ra ra' : RA} (h : applyAll as ra = .ok ra') :
@@ -286,7 +286,7 @@ theorem applyReq_other {a : Adapter} {ra ra' : RA} (h : applyReq a ra = .ok ra')
   | trace t =>
     simp only [applyReq] at h
     split at h <;> first | (cases h; exact dget_dset_ne _ _ (Ne.symm h2)) | cases h
-  | unwrap _ | count | compact | nullify | addParam _ _ | wrapData _ => cases h; rfl
+  | unwrap _ | count | compact | nullify | addParam _ _ | wrapData _ | nested _ _ _ _ => cases h; rfl
   | boom b => cases b <;> cases h; rfl
 
 /-- headers other than `Authorization` and the harness's trace header are not touched by a chain -/
@@ -331,7 +331,7 @@ theorem applyReq_auth {a : Adapter} {ra ra' : RA} (h : applyReq a ra = .ok ra') 
       | (cases h
          exact Or.inl ⟨rfl, dget_dset_ne _ _ xtrace_ne_auth, lastCap_dset_other _ _ cap_xtrace_ne_auth⟩)
       | cases h
-  | unwrap _ | count | compact | nullify | addParam _ _ | wrapData _ => cases h; exact Or.inl ⟨rfl, rfl, rfl⟩
+  | unwrap _ | count | compact | nullify | addParam _ _ | wrapData _ | nested _ _ _ _ => cases h; exact Or.inl ⟨rfl, rfl, rfl⟩
   | boom b => cases b <;> cases h; exact Or.inl ⟨rfl, rfl, rfl⟩
 
 /-- a chain that is accepted has at most one authenticating adapter; with one, the header is its
@@ -373,7 +373,7 @@ theorem TraceOk_applyReq {a : Adapter} {ra ra' : RA} (h : applyReq a ra = .ok ra
   | trace t =>
     simp only [applyReq] at h
     split at h <;> first | (cases h; exact Or.inr ⟨_, dget_dset_same _ _ _⟩) | cases h
-  | unwrap _ | count | compact | nullify | addParam _ _ | wrapData _ => cases h; exact ht
+  | unwrap _ | count | compact | nullify | addParam _ _ | wrapData _ | nested _ _ _ _ => cases h; exact ht
   | boom b => cases b <;> cases h; exact ht
 
 /-- one adapter refuses only for a second `Authorization`, or because it is the refusing adapter -/
@@ -394,7 +394,7 @@ theorem applyReq_ok_or {a : Adapter} {ra : RA} (ht : TraceOk ra.headers) :
     left
     simp only [applyReq]
     rcases ht with h | ⟨s, h⟩ <;> rw [h] <;> exact ⟨_, rfl⟩
-  | unwrap _ | count | compact | nullify | addParam _ _ | wrapData _ => exact Or.inl ⟨_, rfl⟩
+  | unwrap _ | count | compact | nullify | addParam _ _ | wrapData _ | nested _ _ _ _ => exact Or.inl ⟨_, rfl⟩
   | boom b =>
     cases b
     · exact Or.inl ⟨_, rfl⟩
@@ -513,7 +513,7 @@ theorem applyAll_trace {as : List Adapter} {ra ra' : RA} (h : applyAll as ra = .
           rw [hs] at hs'; cases hs'
           simpa [List.append_assoc] using ih1 (s ++ t) rfl
         · cases hr
-      | unwrap _ | count | compact | nullify | addParam _ _ | wrapData _ =>
+      | unwrap _ | count | compact | nullify | addParam _ _ | wrapData _ | nested _ _ _ _ =>
         cases hr
         exact ⟨ih1, ih2⟩
       | boom b =>
